@@ -120,8 +120,8 @@ pub fn exec<G: Cv>(sh: &Shared<G>, h: &[u8]) -> Exec {
                 Ok(p) => proof_bytes = Some(p.to_bytes().unwrap()),
                 Err(e) => {
                     let missing = pctx.borrow().missing;
-                    let txt = format!("{:?}", e);
-                    if !(missing && txt == "Variable does not have a value assignment.") {
+                    let txt = program::err_name(&e);
+                    if !(missing && txt == "MissingAssignment") {
                         problems.push(format!("prove returned Err({})", txt));
                     }
                 }
